@@ -457,7 +457,11 @@ const ECHO_SIZES: [usize; 7] = [0, 1, 1000, 16383, 16384, 16385, 65536];
 // ------------------------------------------------------------------------------------------
 struct Run<'a> {
     tls: &'a TlsCtx,
-    svc: Svc,
+    /// the acceptor service(s) of this thread: one, or - flavour "mixed" - a rustls and an OpenSSL service side by side
+    /// (they share the thread's handshake counter); operations alternate between them
+    svcs: Vec<Svc>,
+    nready: usize,
+    ncall: usize,
     wakers: Wakers,
     calls: Vec<Call>,
     rng: Rng,
@@ -536,7 +540,9 @@ impl<'a> Run<'a> {
         let before = self.wakers.counts();
         let waker = self.wakers.waker(w);
         let mut cx = Context::from_waker(&waker);
-        let res = match catch(|| self.svc.poll_ready(&mut cx)) {
+        let k = self.nready % self.svcs.len();
+        self.nready += 1;
+        let res = match catch(|| self.svcs[k].poll_ready(&mut cx)) {
             Ok(r) => r.to_string(),
             Err(m) => format!("panic: {m}"),
         };
@@ -561,7 +567,9 @@ impl<'a> Run<'a> {
             gate: gate.clone(),
         };
         let mut res = String::new();
-        let fut = match catch(|| self.svc.call(io)) {
+        let k = (self.ncall + 1) % self.svcs.len();   // readiness of one service is followed by a call on the other
+        self.ncall += 1;
+        let fut = match catch(|| self.svcs[k].call(io)) {
             Ok(f) => Some(f),
             Err(m) => {
                 res = format!("panic: {m}");
@@ -910,7 +918,13 @@ fn run_one(mat: &TlsMaterial, run: usize, sched: &Value) -> RunOut {
         let timeout = Duration::from_millis(t_ticks * tick_ms);
         let mut r = Run {
             tls,
-            svc: Svc::build(&acc, tls, timeout),
+            svcs: if acc == "mixed" {
+                vec![Svc::build("rustls", tls, timeout), Svc::build("openssl", tls, timeout)]
+            } else {
+                vec![Svc::build(&acc, tls, timeout)]
+            },
+            nready: 0,
+            ncall: 0,
             wakers: Wakers::new(2),
             calls: vec![],
             rng: Rng::new(seed),
@@ -991,9 +1005,123 @@ fn run_one(mat: &TlsMaterial, run: usize, sched: &Value) -> RunOut {
     }))
 }
 
+// ------------------------------------------------------------------------------------------
+// data-intact clause under transport back-pressure (differential; `vtls data`)
+// ------------------------------------------------------------------------------------------
+/// One accepted stream per (acceptor, transport buffer size): the handshake and every transfer run with BOTH ends
+/// polled concurrently over an in-memory transport whose buffer is much smaller than the payload, so that a write
+/// completes only while the peer is reading.  `write_all` + `flush` on one side must make exactly those bytes arrive
+/// on the other, with nothing written afterwards.  Time is virtual (paused clock): a transfer that can make no
+/// progress runs into the time-out at once instead of hanging.
+fn data_run(mat: &TlsMaterial, acc: &str, buf: usize, seed: u64) -> Vec<Value> {
+    use tokio::time::timeout;
+    let tls = &tls_ctx(mat);
+    accept::max_concurrent_tls_connect(8);
+    let rt = tokio::runtime::Builder::new_current_thread()
+        .enable_time()
+        .start_paused(true)
+        .build()
+        .expect("runtime");
+    let mut rng = Rng::new(seed);
+    let acc = acc.to_string();
+    rt.block_on(async move {
+        let mut out = vec![];
+        let svc = Svc::build(&acc, tls, Duration::from_secs(30));
+        let (client_end, server_end) = tokio::io::duplex(buf);
+        let gate = Rc::new(RefCell::new(Gate { quota: u64::MAX, consumed: 0, inject: vec![], inject_pos: 0, eof: false, waker: None }));
+        let sfut = svc.call(GatedIo { inner: server_end, gate });
+        let cfut = tls_client(if rng.below(2) == 0 { "rustls" } else { "openssl" }, tls,
+                              CountIo { inner: client_end, written: Rc::new(Cell::new(0)) });
+        let hs = timeout(Duration::from_secs(60), async { tokio::join!(sfut, cfut) }).await;
+        let (mut server, mut client) = match hs {
+            Ok((Outcome::Ok(s), Ok(c))) => (s, c),
+            Ok((_, c)) => {
+                out.push(json!({"ev": "data", "acc": acc, "buf": buf, "n": 0, "dir": "handshake", "ok": false,
+                                "detail": format!("handshake failed (client: {:?})", c.err())}));
+                return out;
+            }
+            Err(_) => {
+                out.push(json!({"ev": "data", "acc": acc, "buf": buf, "n": 0, "dir": "handshake", "ok": false, "detail": "handshake made no progress"}));
+                return out;
+            }
+        };
+        let mut sizes = vec![1usize, 1000, 16383, 16384, 16385, 48 * 1024, 65536, 1 + rng.below(70000)];
+        sizes.push(0);
+        for n in sizes {
+            for dir in ["s2c", "c2s"] {
+                let payload = rng.bytes(n);
+                let (w, r): (&mut Box<dyn Rw>, &mut Box<dyn Rw>) = if dir == "s2c" { (&mut server, &mut client) } else { (&mut client, &mut server) };
+                let p2 = payload.clone();
+                let res = timeout(Duration::from_secs(60), async {
+                    let wr = async {
+                        w.write_all(&p2).await.map_err(|e| format!("write: {e}"))?;
+                        w.flush().await.map_err(|e| format!("flush: {e}"))?;
+                        Ok::<(), String>(())
+                    };
+                    let rd = async {
+                        let mut got = vec![0u8; n];
+                        r.read_exact(&mut got).await.map_err(|e| format!("read: {e}"))?;
+                        Ok::<Vec<u8>, String>(got)
+                    };
+                    tokio::join!(wr, rd)
+                })
+                .await;
+                let (ok, detail) = match res {
+                    Ok((Ok(()), Ok(got))) => (got == payload, if got == payload { String::new() } else { "payload differs".to_string() }),
+                    Ok((w, r)) => (false, format!("{:?} / {:?}", w.err(), r.err().map(|e| e))),
+                    Err(_) => (false, "flushed bytes never reached the peer (no progress)".to_string()),
+                };
+                out.push(json!({"ev": "data", "acc": acc, "buf": buf, "n": n, "dir": dir, "ok": ok, "detail": detail}));
+                if !ok {
+                    return out;
+                }
+            }
+        }
+        out
+    })
+}
+
+fn data_main() {
+    let mut trace = Trace::create(&arg("--trace").expect("--trace"));
+    let seed: u64 = arg("--seed").map(|x| x.parse().unwrap()).unwrap_or(1);
+    let rounds: usize = arg("--rounds").map(|x| x.parse().unwrap()).unwrap_or(1);
+    let mat = Arc::new(tls_material());
+    let (mut n, mut bad, mut bytes) = (0usize, vec![], 0u64);
+    for round in 0..rounds {
+        for acc in ["rustls", "openssl"] {
+            for buf in [1usize << 20, 16384, 4096, 1024] {
+                let m = mat.clone();
+                let s = seed.wrapping_mul(1000003).wrapping_add((round * 8 + buf % 7) as u64);
+                // a fresh thread per stream: the handshake counter is thread-local
+                let recs = std::thread::spawn(move || catch(|| data_run(&m, acc, buf, s)))
+                    .join()
+                    .unwrap_or_else(|_| Err("driver thread panicked".into()));
+                let recs = match recs {
+                    Ok(r) => r,
+                    Err(msg) => vec![json!({"ev": "data", "acc": acc, "buf": buf, "n": 0, "dir": "panic", "ok": false, "detail": msg})],
+                };
+                for r in recs {
+                    n += 1;
+                    if r["ok"] == true {
+                        bytes += r["n"].as_u64().unwrap_or(0);
+                    } else if bad.len() < 10 {
+                        bad.push(r.clone());
+                    }
+                    trace.emit(&r);
+                }
+            }
+        }
+    }
+    trace.finish();
+    println!("{}", json!({"runs": n, "steps": n, "bytes": bytes, "mismatches": bad.len(), "first_mismatches": bad}));
+}
+
 fn main() {
     quiet_panics();
     let mode = std::env::args().nth(1).expect("mode");
+    if mode == "data" {
+        return data_main();
+    }
     assert_eq!(mode, "accept", "unknown mode");
     let trace_path = arg("--trace").expect("--trace");
     let mut trace = Trace::create(&trace_path);
